@@ -1,2 +1,7 @@
 import ProcSim.Model.Basic
 import ProcSim.Model.Types
+import ProcSim.Model.Loader
+import ProcSim.Spec.Loader
+import ProcSim.Model.Queue
+import ProcSim.Model.Sim
+import ProcSim.Spec.Sim
